@@ -190,6 +190,12 @@ def replay_scenario(failing):
     print('text:\n' + inp['text'])
     print('observed now: %r' % (now,))
     print('expected    : %r' % ({k: exp.get(k) for k in ('pfs', 'kind', 'T')},))
+    if not bad and isinstance(exp, dict) and o.get('parse') == 'ok':
+        # everything else the expectation says that can be re-checked from the text alone (exception type, the
+        # failing line, the rendered report, how the run ended)
+        for w in runloop.check_expectation({'text': inp['text'], 'run': inp.get('run', {}), 'expect': exp}, o):
+            print('expectation : ' + w)
+            bad.append(w)
     if not bad:
         # the same object run again and again
         again = runloop.rerun_check({'text': inp['text'], 'run': inp.get('run', {})}, o)
@@ -265,3 +271,9 @@ def replay_module_level(ctx, failing, suite, cases, **kw):
     print(failing['input']['module_source'])
     print('default_runtime_state=%r -> %s' % (failing['input']['default_runtime_state'], bad[0]['impl'] if bad else 'as expected'))
     return bool(bad)
+
+
+@family('c09_random')
+def _f(params, shard, nshards, seed):
+    rng = random.Random('c09r:%d:%d' % (seed, shard))
+    return [S.c09_random(rng) for _ in range(params['count'])]
